@@ -152,7 +152,11 @@ func init() {
 		}
 	}
 	// a small shared key space so that the two patches collide
-	prof := gen.Hostile().With(func(p *gen.Profile) { p.Keys = []string{"a", "b", "c", "x<y", "", "a~1b"}; p.Width = 3; p.ScalarBias = 35 })
+	prof := gen.Hostile().With(func(p *gen.Profile) {
+		p.Keys = []string{"a", "b", "c", "x<y", "", "a~1b"}
+		p.Width = 3
+		p.ScalarBias = 35
+	})
 	core.Register(&core.Prop{
 		ID:    "C07",
 		Title: "MergeMergePatches composes two merge patches (v5)",
